@@ -2,7 +2,7 @@
     and followed by [Print Assumptions]. *)
 From Coq Require Import List ZArith NArith Bool Permutation Sorted.
 From Kardia Require Import Base.Int64 C12.Model C12.Spec C12.ProofsSort C12.ProofsUpdate C12.ProofsSpec
-     C12.ProofsFair C12.ProofsRefine C12.ProofsUpdate2 C12.ProofsUpdate3 C12.ProofsUpdate4 C12.ProofsUpdate5 C12.ProofsReport C12.ProofsExamples C12.Open Generated.C12Facts.
+     C12.ProofsFair C12.ProofsRefine C12.ProofsUpdate2 C12.ProofsUpdate3 C12.ProofsUpdate4 C12.ProofsUpdate5 C12.ProofsReport C12.ProofsChain C12.ProofsExamples C12.Open Generated.C12Facts.
 Import ListNotations.
 Local Open Scope Z_scope.
 
@@ -319,3 +319,113 @@ Theorem C12_report_accepted_keeps_good :
   forall s report s', good s -> apply_report s report = Some (s', UOk) -> good s'.
 Proof. exact report_ok_good. Qed.
 Print Assumptions C12_report_accepted_keeps_good.
+
+(** the change set that calculateValidatorSetUpdates derives from a report (no repeated address)
+    over a set with distinct addresses is exactly: the report's entries that are not members or
+    whose power differs from the member's (power 0 included), plus a removal for every member the
+    report leaves out — nothing the report says about a non-member is dropped on the way *)
+Theorem C12_report_change_set_exact :
+  forall last report c,
+    report <> [] -> NoDup (map v_addr report) -> NoDup (map v_addr last) ->
+    (In c (calculate_updates last report) <->
+     (In c report /\ forall o, get_by_addr (v_addr c) last = Some o -> v_power o <> v_power c) \/
+     (exists o, In o last /\ ~ In (v_addr o) (map v_addr report) /\ c = removal_of o)).
+Proof. exact calculate_updates_exact. Qed.
+Print Assumptions C12_report_change_set_exact.
+
+Theorem C12_report_keeps_unknown_removal :
+  forall last report c,
+    NoDup (map v_addr report) -> NoDup (map v_addr last) ->
+    In c report -> v_power c = 0 -> get_by_addr (v_addr c) last = None ->
+    In c (calculate_updates last report).
+Proof. exact calculate_updates_keeps_unknown_removal. Qed.
+Print Assumptions C12_report_keeps_unknown_removal.
+
+(** an accepted report refines the specification: the new NextValidators is the specified
+    update by the derived change set (or the set itself when nothing changed) followed by one
+    round of the specified round-robin, whose proposer is the one recorded *)
+Theorem C12_report_refines_spec :
+  forall s report s',
+    good s -> apply_report s report = Some (s', UOk) ->
+    let cs := calculate_updates (vs_vals s) report in
+    exists mid props p,
+      ((cs = [] /\ mid = vs_vals s) \/ (cs <> [] /\ spec_update max_total_voting_power (vs_vals s) cs mid)) /\
+      spec_increment mid 1 (vs_vals s') props /\
+      vs_proposer s' = Some (last props 0%N, p).
+Proof. exact report_refines_spec. Qed.
+Print Assumptions C12_report_refines_spec.
+
+Theorem C12_report_never_panics :
+  forall s report, good s -> apply_report s report <> None.
+Proof. exact report_no_panic. Qed.
+Print Assumptions C12_report_never_panics.
+
+(** updateState on the whole LatestBlockState is all-or-nothing: an error returns the state
+    that was passed in (all three validator sets, both heights) *)
+Theorem C12_block_atomic :
+  forall st report st' e,
+    apply_block st report = Some (st', e) -> e <> UOk -> st' = st.
+Proof. exact block_atomic. Qed.
+Print Assumptions C12_block_atomic.
+
+(** the pipeline of validator sets: after an accepted block the set in force (Validators) is the
+    previous NextValidators, LastValidators is the previous Validators, NextValidators is the
+    report applied to the previous NextValidators; the height advances by one and
+    LastHeightValidatorsChanged becomes height + 2 exactly when the report changed something *)
+Theorem C12_block_pipeline :
+  forall st report st',
+    apply_block st report = Some (st', UOk) ->
+    ch_cur st' = ch_next st /\ ch_last st' = ch_cur st /\
+    apply_report (ch_next st) report = Some (ch_next st', UOk) /\
+    ch_height st' = wrapu64 (ch_height st + 1) /\
+    ch_changed st' = match calculate_updates (vs_vals (ch_next st)) report with
+                     | [] => ch_changed st
+                     | _ => wrapu64 (ch_height st' + 2)
+                     end.
+Proof. exact block_pipeline. Qed.
+Print Assumptions C12_block_pipeline.
+
+Theorem C12_block_pipeline_lag :
+  forall st r1 r2 st1 st2,
+    apply_block st r1 = Some (st1, UOk) -> apply_block st1 r2 = Some (st2, UOk) ->
+    ch_cur st1 = ch_next st /\ ch_cur st2 = ch_next st1 /\ ch_last st2 = ch_next st.
+Proof. exact pipeline_lag. Qed.
+Print Assumptions C12_block_pipeline_lag.
+
+(** histories of blocks: from the genesis arrangement over a good set (or any good state), any
+    sequence of validator reports, valid or not, runs without panic — hence without any int64
+    wrap or clip — and every state on the way has good Validators and NextValidators *)
+Theorem C12_genesis_good :
+  forall s c, good s -> chain_genesis s = Some c -> chain_good c.
+Proof. exact genesis_good. Qed.
+Print Assumptions C12_genesis_good.
+
+Theorem C12_genesis_never_panics :
+  forall s, good s -> chain_genesis s <> None.
+Proof. exact genesis_no_panic. Qed.
+Print Assumptions C12_genesis_never_panics.
+
+Theorem C12_block_keeps_good :
+  forall st report,
+    chain_good st -> exists st' e, apply_block st report = Some (st', e) /\ chain_good st'.
+Proof. exact block_good. Qed.
+Print Assumptions C12_block_keeps_good.
+
+Theorem C12_block_histories_good :
+  forall st reports,
+    chain_good st -> exists st', run_blocks st reports = Some st' /\ chain_good st'.
+Proof. exact blocks_good. Qed.
+Print Assumptions C12_block_histories_good.
+
+(** the proposer of round k of a height, CopyIncrementProposerPriority(k).GetProposer() on the
+    height's set, is the proposer of the k-th round of the specified round-robin from that set,
+    and a member of it (side condition of the overflow proof; always true for k = 1) *)
+Theorem C12_round_proposer_refines_spec :
+  forall s (k : positive),
+    good s -> (Z.pos k + 2) * total_power (vs_vals s) <= B0 ->
+    exists l' props,
+      spec_increment (vs_vals s) (Pos.to_nat k) l' props /\
+      proposer_at s (Z.pos k) = Some (last props 0%N) /\
+      In (last props 0%N) (map v_addr (vs_vals s)).
+Proof. exact proposer_at_refines_spec. Qed.
+Print Assumptions C12_round_proposer_refines_spec.
